@@ -643,7 +643,7 @@ int sbdf_obj_eq(sbdf_object const* lhs, sbdf_object const* rhs)
 
 			if (cmp)
 			{
-				return cmp;
+				return 0;
 			}
 		}
 	}
